@@ -84,14 +84,15 @@ def validate(chk, beh, label, prefixes=("C19.", "Any.Crash")):
 
 def pairs(chk, cfgname, label, prefixes, known_check=True):
     """every interleaving of a pairs configuration: model-check, export, realise on the code, validate"""
-    r = vlib.tlc("ConcMC.tla", cfgname, chk.work, workers=8, coverage=True, timeout=3600, xmx="8g")
+    cov = chk.tier == "thorough"
+    r = vlib.tlc("ConcMC.tla", cfgname, chk.work, workers=8, coverage=cov, timeout=3600, xmx="8g")
     if r.invariant_violated:
         chk.violation({"inv": "model:" + r.invariant_violated[0], "cfg": cfgname},
                       "the model (Concurrent.tla, %s) violates %s: %s" % (
                           cfgname, r.invariant_violated[0], [ln for ln in r.out.splitlines() if ln.startswith('<<"VIOLATED"')][:1]),
                       {"kind": "tlc", "cfg": cfgname, "out": r.out[-5000:]})
         return False
-    chk.model_run(cfgname, r, expect_actions=["AskAny", "DoAny", "RelAny", "LocalAny", "Finish"])
+    chk.model_run(cfgname, r, expect_actions=["AskAny", "DoAny", "RelAny", "LocalAny", "Finish"] if cov else ())
     validate(chk, plans_of(r), label, prefixes)
     return True
 
@@ -101,14 +102,15 @@ def run(chk):
     w = chk.work
     for lock in ("mutex", "rwlock"):
         cfg = "ConcMC_pairs_%s.cfg" % lock
-        r = vlib.tlc("ConcMC.tla", cfg, w, workers=8, coverage=True, timeout=3600, xmx="8g")
+        cov = thorough
+        r = vlib.tlc("ConcMC.tla", cfg, w, workers=8, coverage=cov, timeout=3600, xmx="8g")
         if r.invariant_violated:
             chk.violation({"inv": "model:" + r.invariant_violated[0], "lock": lock},
                           "the model (Concurrent.tla, %s) violates %s beyond the known race shape: %s" % (
                               cfg, r.invariant_violated[0], [ln for ln in r.out.splitlines() if ln.startswith('<<"VIOLATED"')][:1]),
                           {"kind": "tlc", "cfg": cfg, "out": r.out[-5000:]})
             continue
-        chk.model_run(cfg, r, expect_actions=["AskAny", "DoAny", "RelAny", "LocalAny", "Finish"])
+        chk.model_run(cfg, r, expect_actions=["AskAny", "DoAny", "RelAny", "LocalAny", "Finish"] if cov else ())
         validate(chk, plans_of(r), "pairs-" + lock)
         # the known finding must still be what the model says: without the exemption the invariant fails
         r2 = vlib.tlc("ConcMC.tla", "ConcMC_pairs_%s_nok.cfg" % lock, w, workers=4, timeout=1800)
